@@ -171,7 +171,15 @@ pub fn c03_judge(c: &C03Case, obs: &mut Obs) -> Result<(), String> {
         default_ez: Ez::Linear,
         kfs: vec![KfDesc { pos: 0.0, a: Some(0.0), b: None, c: None, d: None, ez: None }, KfDesc { pos: 1.0, a: Some(1.0), b: None, c: None, d: None, ez: None }], order: 0 };
     let probe = probe_desc.build();
-    // ---- metadata
+    // ---- metadata, through the stand-alone time scale's own getters ...
+    if ts.get_delay().to_bits() != tm.delay.to_bits() || ts.get_cycle_duration().to_bits() != tm.cycle.to_bits() || from_repeat(ts.get_repeat()) != tm.repeat {
+        return Err(format!("TimeScale getters report delay {:?}, cycle {:?}, repeat {:?}; configured {:?}", ts.get_delay(), ts.get_cycle_duration(), ts.get_repeat(), tm));
+    }
+    // (two routes to the same number: required to agree to rounding only; each is judged against the model below)
+    if !(ts.get_duration() == probe.duration() || (ts.get_duration().is_finite() && probe.duration().is_finite() && mv_model::ulps_between(ts.get_duration(), probe.duration()) <= 4)) {
+        return Err(format!("TimeScale::get_duration() = {:?} but a timeline built with the same timing reports duration() = {:?} ({:?})", ts.get_duration(), probe.duration(), tm));
+    }
+    // ... and through a timeline
     if probe.delay().to_bits() != tm.delay.to_bits() {
         return Err(format!("delay() = {:?}, configured {:?}", probe.delay(), tm.delay));
     }
